@@ -297,10 +297,31 @@ func instr(in ssa.Instruction) J {
 	return j
 }
 
+// homePkg: the package a function belongs to, also for functions without fn.Pkg: instances of generic functions (their
+// origin's package), bound-method closures and thunks (the method's package), anonymous functions (their parent's)
+func homePkg(fn *ssa.Function) string {
+	if fn == nil {
+		return ""
+	}
+	if fn.Pkg != nil {
+		return fn.Pkg.Pkg.Path()
+	}
+	if o := fn.Origin(); o != nil && o != fn {
+		return homePkg(o)
+	}
+	if p := fn.Parent(); p != nil {
+		return homePkg(p)
+	}
+	if obj := fn.Object(); obj != nil && obj.Pkg() != nil {
+		return obj.Pkg().Path()
+	}
+	return ""
+}
+
 func function(fn *ssa.Function) J {
 	j := J{"name": fn.String(), "pos": pos(fn.Pos()), "synthetic": fn.Synthetic, "short": fn.Name()}
-	if fn.Pkg != nil {
-		j["pkg"] = fn.Pkg.Pkg.Path()
+	if hp := homePkg(fn); hp != "" {
+		j["pkg"] = hp
 	}
 	ps := []J{}
 	for _, p := range fn.Params {
@@ -320,7 +341,7 @@ func function(fn *ssa.Function) J {
 	j["results"] = rs
 	j["hasrecv"] = fn.Signature.Recv() != nil
 	j["variadic"] = fn.Signature.Variadic()
-	if obj := fn.Object(); obj != nil {
+	if obj := fn.Object(); obj != nil && fn.Synthetic == "" {
 		j["exported"] = obj.Exported()
 	}
 	if fn.Blocks == nil {
@@ -417,13 +438,8 @@ func main() {
 	done := map[*ssa.Function]bool{}
 	var work []*ssa.Function
 	for fn := range all {
-		if fn.Pkg != nil && target[fn.Pkg.Pkg.Path()] {
+		if hp := homePkg(fn); hp != "" && target[hp] {
 			work = append(work, fn)
-		} else if fn.Pkg == nil && fn.Synthetic == "" {
-			// anonymous functions have Pkg via parent
-			if p := fn.Parent(); p != nil && p.Pkg != nil && target[p.Pkg.Pkg.Path()] {
-				work = append(work, fn)
-			}
 		}
 	}
 	funcs := []J{}
@@ -434,11 +450,12 @@ func main() {
 			continue
 		}
 		done[fn] = true
-		inTarget := fn.Pkg != nil && (target[fn.Pkg.Pkg.Path()] || std[fn.Pkg.Pkg.Path()])
+		hp := homePkg(fn)
+		inTarget := hp != "" && (target[hp] || std[hp])
 		if !inTarget {
 			j := J{"name": fn.String(), "external": true, "short": fn.Name()}
-			if fn.Pkg != nil {
-				j["pkg"] = fn.Pkg.Pkg.Path()
+			if hp != "" {
+				j["pkg"] = hp
 			}
 			funcs = append(funcs, j)
 			continue
